@@ -2,3 +2,50 @@
 #[allow(unused_imports)]
 use super::*;
 include!("/verif/replay/in_crate/common.rs");
+
+fn decode_guarded(buf: &[u8]) -> Result<bool, String> {
+    let b = buf.to_vec();
+    let prev = std::panic::take_hook();
+    std::panic::set_hook(Box::new(|_| {}));
+    let r = std::panic::catch_unwind(move || Message::deserialize(b).is_ok());
+    std::panic::set_hook(prev);
+    r.map_err(|e| e.downcast_ref::<String>().cloned().or_else(|| e.downcast_ref::<&str>().map(|s| s.to_string())).unwrap_or_default())
+}
+
+/// C10: Message::deserialize returns Ok/Err for every buffer, for every tag (tags 2, 3, 9 go through decoders
+/// that are not under a Verus contract in unit `message`; they are exercised here all the same)
+#[test]
+fn decoder_total() {
+    let mut rng = Rng::from_env();
+    for tag in 0u8..=17 {
+        for len in 0..200usize {
+            for _ in 0..3 {
+                let mut b = vec![tag];
+                b.extend(rng.bytes(len));
+                // small counts make deeper paths reachable
+                if len >= 36 && rng.below(2) == 0 { b[33] = 0; b[34] = 0; b[35] = 0; b[36] = rng.below(4) as u8; }
+                if let Err(p) = decode_guarded(&b) {
+                    witness(format!("Message::deserialize panicked on tag {} with {} payload bytes {:?}…: {}", tag, len, &b[1..b.len().min(12)], p));
+                }
+            }
+        }
+    }
+}
+
+/// C09: tag table and payload round trip for the fixed-layout variants
+#[test]
+fn roundtrip_simple_variants() {
+    let mut rng = Rng::from_env();
+    for _ in 0..500 {
+        let h: [u8; 32] = rng.arr(); let f: [u8; 32] = rng.arr(); let id = rng.edge_u64();
+        let m = Message::BlockHeaderHash(h, id);
+        match Message::deserialize(m.serialize()) { Ok(Message::BlockHeaderHash(h2, id2)) if h2 == h && id2 == id => {}, _ => witness(format!("BlockHeaderHash({:?},{}) does not round trip", &h[..4], id)) }
+        let m = Message::GhostChainRequest(id, h, f);
+        match Message::deserialize(m.serialize()) { Ok(Message::GhostChainRequest(i2, h2, f2)) if h2 == h && i2 == id && f2 == f => {}, _ => witness("GhostChainRequest does not round trip".to_string()) }
+        let n = rng.below(5) as usize;
+        let keys: Vec<SaitoPublicKey> = (0..n).map(|_| rng.arr::<33>()).collect();
+        match Message::deserialize(Message::KeyListUpdate(keys.clone()).serialize()) { Ok(Message::KeyListUpdate(k2)) if k2 == keys => {}, _ => witness("KeyListUpdate does not round trip".to_string()) }
+        let api = ApiMessage { msg_index: rng.next() as u32, data: rng.bytes(n * 3) };
+        match Message::deserialize(Message::ApplicationMessage(ApiMessage { msg_index: api.msg_index, data: api.data.clone() }).serialize()) { Ok(Message::ApplicationMessage(a)) if a.msg_index == api.msg_index && a.data == api.data => {}, _ => witness("ApplicationMessage does not round trip".to_string()) }
+    }
+}
